@@ -662,7 +662,11 @@ class P(Prop):
             info["strace"] = st["info"]
             failures += st["failures"]
             evaluations += st["info"]["runs"]
-        return {"evaluations": evaluations, "failures": failures, "info": info}
+        # every history of this stage kills a real process at a distinct point (or sequence of points) of a distinct
+        # input and was compared with the model: counted as distinct non-trivial cases
+        distinct = len({json.dumps([c.get("step"), c.get("input"), c["history"]], sort_keys=True, default=str) for c in cases})
+        return {"evaluations": evaluations, "failures": failures, "info": info, "distinct_nontrivial": distinct,
+                "modelled": len(cases)}
 
     # ------------------------------------------------------------------ syscall level (thorough)
     SYSCALLS = "openat,open,creat,write,pwrite64,writev,close,rename,renameat,renameat2,unlink,unlinkat,truncate,ftruncate,link,linkat,symlink,symlinkat"
